@@ -8,19 +8,58 @@ NOTE_COMMON = ("Trusted: Lean 4.33 kernel + Mathlib (axioms propext, Classical.c
                "the hand-written model is tied to /repo by the correspondence check (exact-rational model vs float implementation, 1e-9 relative, sampled); "
                "floating-point rounding, overflow and the sparse solver are not modelled.")
 
+T = "Lean 4 proof (kernel-checked theorems about the model) + model/implementation correspondence (exact-rational driver vs real code); failing-input search on the implementation when either breaks"
 CLAIMED = {
-    # id: (technique, level text, design_ref, extra note)
-    "C05": ("Lean 4 theorems (field_simp/ring identities on a generic grid line, lifted to all 9 grid classes) + model/implementation correspondence",
-            "For every grid class, every well-formed non-uniform mesh of any size, every coefficient field and every ghosted field, the model's "
-            "matrix rows equal the divergence of the corresponding face flux (diffusion = div(D grad), central = div(u lin), upwind = div(u upwindMean) "
-            "incl. boundary corrections and N=1, TVD zero/unit limiter identities) — proved in Lean for all sizes and values. The model's rows, "
-            "divergence, gradient and means are compared with the real builders on random non-uniform grids of all nine classes every run.",
+    "C01": (T, "Every flux-form term of the model is the divergence of a face flux (C05 lemmas) and the consistent-volume-weighted sum of a divergence along any grid "
+            "line telescopes to the two boundary faces for every number of cells (Finset.sum_range_sub) — so interior fluxes cancel for all sizes, spacings and fields; "
+            "closed (no-flux / zero normal velocity) and periodic (equal end cells) lines give zero; a closed implicit or explicit step conserves the weighted sum for any dt; "
+            "cellvolume = const x consistent volume on 8 classes. Counterexample theorems + known findings: SphericalGrid3D volume, upwind x periodic.",
+            "§6 C01", "Known findings sph3-volume-inconsistent and upwind-periodic-nonconservative are replayed on the real code every run."),
+    "C02": (T, "PARTIAL by nature: proved are exactness of gradient / linear mean / Robin ghost on linear fields for any non-uniform axis, exact values with explicit remainders of the "
+            "diffusion stencils on quadratics in Cartesian, cylindrical (=4) and spherical (=6 + h^2/(2 r^2), sph1: exactly 6) coordinates, exactness of central/upwind advection on "
+            "linear fields, divergence-free radial velocities, and the M-matrix error bound |e| <= |tau|/w — i.e. every metric factor, sign and coefficient placement agrees with the "
+            "continuous operator. The Taylor-remainder step to O(h^2) for every smooth solution is not mechanised; a manufactured-solution refinement study on all 9 classes "
+            "(Dirichlet/Neumann/Robin per side, uniform and graded, 5 term sets) runs as exploration and as the failing-input search.",
+            "§6 C02", "Partial: consistency + stability proved, convergence rate explored."),
+    "C03": (T, "Ghost values of the model satisfy a*(normal difference quotient with the 1/r, 1/(r sin theta) metric factor) + b*(face average) = c whenever defined, are defined iff the "
+            "ghost coefficient is non-zero, are invariant under scaling (a,b,c); the solver's boundary row is equivalent to the same Robin relation, hence the ghost unknown the solver "
+            "computes is the value reported afterwards; wrap iff an axis side is flagged periodic; periodic rows <=> wrap when the end cells are equal (counterexample otherwise: known finding).",
+            "§6 C03", "Known finding periodic-unequal-end-cells replayed every run."),
+    "C04": (T, "Assembled row/right-hand side = sum over the term list for matrix / vector / pair kinds (foldl = sum), invariant under permutation, scaling and negation; ghost rows never "
+            "depend on the terms and interior rows never on the BCs; the assembled operator is linear, solutions superpose in (sources, boundary data c, previous values) and are linear given uniqueness. "
+            "The system handed to a recording external solver is compared entry-wise with the model's, and the float solution's exact-rational residual in the model's system is measured.",
+            "§6 C04", ""),
+    "C05": (T, "For every grid class, every well-formed non-uniform mesh of any size, every coefficient field and every ghosted field, the model's matrix rows equal the divergence of the "
+            "corresponding face flux (diffusion = div(D grad), central = div(u lin), upwind = div(u upwindMean) incl. boundary corrections and N=1, TVD zero/unit limiter identities).",
             "§6 C05", "UpOK hypothesis: u = 0 wherever an explicitly given upwind-direction field is exactly 0 (automatic for the default)."),
-    "C06": ("Lean 4 theorems (corollaries of the C05 flux identities) + model/implementation correspondence",
-            "Constants are annihilated by the diffusion rows (no hypothesis), advect as c·div(u) under central and upwind rows for every sign pattern, "
-            "have zero TVD correction for every limiter; sources are diagonal (φ = γ/β cell by cell) — proved for all meshes and sizes; the steady uniform "
-            "state in divergence-free flows and the cell-local source solve are additionally exercised on the real solver.",
+    "C06": (T, "Constants are annihilated by the diffusion rows (no hypothesis), advect as c*div(u) under central and upwind rows for every sign pattern, have zero TVD correction for every "
+            "limiter; sources are diagonal (phi = gamma/beta cell by cell); the steady uniform state and the cell-local source solve are additionally exercised on the real solver.",
             "§6 C06", ""),
+    "C07": (T, "Row structure of transient - diffusion(D>=0) + upwind(div-free u) + sink(beta>=0) proved for every grid class, spacing, contrast and dt>0: non-positive off-diagonals, row sum "
+            "alpha/dt + beta, rhs (alpha/dt) old; local and global maximum/minimum principle for Dirichlet / no-flux / periodic ghosts (any end-cell sizes), any number of steps, "
+            "non-negativity preserved, uniqueness of the solution; with a sink 0 joins the hull (counterexample theorem shows it must).",
+            "§6 C07", "lineA >= 0 (sin(theta_f) >= 0 on sph3) is a hypothesis."),
+    "C08": (T, "Every stencil of the model equals a 1-D line form that mentions the direction only through its axis data, hence axis permutation theorems on Cartesian grids (rows, TVD included); "
+            "mirror theorems (w,p,e) -> (e,p,w) incl. upwind boundary corrections and TVD for every limiter; redundant-axis theorems (stencil along a constant direction vanishes, kept "
+            "directions coincide between Grid3D/2D/1D, Cylindrical3D/2D, Polar2D/Cylindrical1D, lifted solutions satisfy interior and ghost rows); shift invariance on uniform axes.",
+            "§6 C08", "Known finding upwind-periodic-not-shift-invariant (boundary treatment of upwind at periodic faces)."),
+    "C10": (T, "Constructor laws for every strictly increasing face list of any length; (N,L) form = face form on equispaced faces; cellvolume = geometric volume per cell for 8 classes "
+            "(annular sectors, shells), positivity, telescoping totals; SphericalGrid3D theta-factor proved NOT geometric over the reals (known finding).",
+            "§6 C10", "Known finding sph3-cellvolume-theta-factor replayed every run."),
+    "C11": (T, "Two-point width-weighted means: betweenness, constants, HM <= AM over any ordered field, HM <= GM <= AM over the reals (Real.exp/log), linear exactness of linearMean on "
+            "non-uniform grids, locality, donor-cell / inflow-boundary / zero-velocity cases of upwindMean, zero handling of harmonic and geometric means identical in 1-D and N-D.",
+            "§6 C11", ""),
+    "C12": (T, "Transient row law alpha (x - old)/dt + L x = s for scalar or per-cell alpha; steady solutions are fixed points for every dt, alpha (and reproduced given uniqueness); exact identities "
+            "giving the dt -> infinity and dt -> 0 laws with explicit constants; explicit step = old + dt RHS with ghosts re-imposed; implicit/explicit gap = (dt^2/alpha^2) L(s - L x).",
+            "§6 C12", ""),
+    "C13": ("Lean 4 proof about the limiter formulas GENERATED from utilities.py on every run (translator T-lim) + numeric cross-check of the translation",
+            "For all 16 names, all r and eps>0: every denominator non-zero, value = published closed form (value 0 at removable singularities), psi(1)=1, 0<=psi<=min(2r,4) for r>0, "
+            "clipping limiters vanish for r<=0, unknown names fall back to SUPERBEE, _fsign never returns 0 so every TVD ratio is defined.",
+            "§6 C13", "Translator T-lim is trusted to render the Python expressions faithfully (cross-checked numerically each run)."),
+    "C17": (T, "Homogeneity of every metric quantity under length scaling (exponent table) and hence of every stencil, divergence, gradient, mean, source, transient, ghost value and boundary row; "
+            "a solution of the system in one unit system, multiplied by K, solves the rescaled system, for any number of steps; TVD under an explicit outside-the-threshold-band hypothesis "
+            "(counterexample inside the band); every term linear in its coefficient field (upwind at fixed direction).",
+            "§6 C17", "PolarGrid2D decoupled corner rows are not homogeneous (harmless; hypothesis CornersZero)."),
 }
 
 checks = []
